@@ -137,7 +137,7 @@ func main() {
 	// ... and the sweeps along the reader's limits: whatever the Writer accepts there and closes
 	// must be a valid file, with nothing left of the calls it refused
 	for _, sp := range prog.LimitSpecials(e.Thorough) {
-		if !sp.Plan.NoModel && sp.Plan.Limit <= 5 {
+		if !sp.Plan.NoModel && (sp.Plan.Limit <= 5 || sp.Plan.Limit == 10) {
 			specials = append(specials, sp)
 		}
 	}
